@@ -12,6 +12,7 @@ import (
 	"github.com/polynetwork/poly/common/log"
 	vconfig "github.com/polynetwork/poly/consensus/vbft/config"
 	"github.com/polynetwork/poly/core/genesis"
+	"github.com/polynetwork/poly/core/ledger"
 	"github.com/polynetwork/poly/core/payload"
 	"github.com/polynetwork/poly/core/signature"
 	"github.com/polynetwork/poly/core/store"
@@ -33,11 +34,21 @@ type env struct {
 
 var theEnv *env
 
+var logOnce bool
+
+// getEnvQuiet silences the node's logger (it logs every failed transaction at debug level).
+func getEnvQuiet() {
+	if !logOnce {
+		logOnce = true
+		log.InitLog(log.ErrorLog, os.Stderr)
+	}
+}
+
 func getEnv() *env {
 	if theEnv != nil {
 		return theEnv
 	}
-	log.InitLog(log.ErrorLog, os.Stderr) // the node logs every failed transaction at debug level; keep the harness quiet
+	getEnvQuiet()
 	e := &env{}
 	for i := 0; i < nValidators; i++ {
 		e.accs = append(e.accs, account.NewAccount(""))
@@ -82,24 +93,28 @@ func (e *env) bookkeepers() []keypair.PublicKey {
 	return ks
 }
 
-type ledger struct {
+type ledgerT struct {
 	dir     string
 	ls      *ledgerstore.LedgerStoreImp
+	lg      *ledger.Ledger
 	genesis *types.Block
 }
 
 // newLedger creates a fresh ledger under $TMPDIR and initialises it with the genesis block.
-func newLedger() (*ledger, error) {
+func newLedger() (*ledgerT, error) {
 	e := getEnv()
 	dir, err := os.MkdirTemp("", "hnative-ledger-")
 	if err != nil {
 		return nil, err
 	}
-	ls, err := ledgerstore.NewLedgerStore(dir)
+	// through core/ledger, so that the node's global ledger.DefLedger (consulted by some native serialisers for a fork
+	// height) can point at the ledger a block is executed on
+	lg, err := ledger.NewLedger(dir)
 	if err != nil {
 		os.RemoveAll(dir)
 		return nil, err
 	}
+	ls := lg.GetStore().(*ledgerstore.LedgerStoreImp)
 	gb, err := genesis.BuildGenesisBlock(e.bookkeepers(), config.DefConfig.Genesis)
 	if err != nil {
 		ls.Close()
@@ -111,10 +126,10 @@ func newLedger() (*ledger, error) {
 		os.RemoveAll(dir)
 		return nil, err
 	}
-	return &ledger{dir: dir, ls: ls, genesis: gb}, nil
+	return &ledgerT{dir: dir, ls: ls, lg: lg, genesis: gb}, nil
 }
 
-func (l *ledger) close() {
+func (l *ledgerT) close() {
 	if l == nil {
 		return
 	}
@@ -154,7 +169,7 @@ func rawInvokeTx(code []byte, nonce uint32, signers []common.Address) *types.Tra
 }
 
 // nextBlock builds the successor of the current block holding txs, signed by all validators.
-func (l *ledger) nextBlock(txs []*types.Transaction, timestampDelta uint32) (*types.Block, error) {
+func (l *ledgerT) nextBlock(txs []*types.Transaction, timestampDelta uint32) (*types.Block, error) {
 	e := getEnv()
 	h := l.ls.GetCurrentBlockHeight()
 	prevHash := l.ls.GetCurrentBlockHash()
@@ -189,11 +204,13 @@ func (l *ledger) nextBlock(txs []*types.Transaction, timestampDelta uint32) (*ty
 	return blk, nil
 }
 
-func (l *ledger) execute(blk *types.Block) (store.ExecuteResult, error) {
+func (l *ledgerT) execute(blk *types.Block) (store.ExecuteResult, error) {
+	ledger.DefLedger = l.lg
 	return l.ls.ExecuteBlock(blk)
 }
 
-func (l *ledger) commit(blk *types.Block, res store.ExecuteResult) error {
+func (l *ledgerT) commit(blk *types.Block, res store.ExecuteResult) error {
+	ledger.DefLedger = l.lg
 	return l.ls.AddBlock(blk, res.MerkleRoot)
 }
 
